@@ -99,6 +99,12 @@ def _h(el):
     return hashlib.sha1(etree.tostring(el)).digest()
 
 
+def _iterable(cls):
+    """Collections: classes with __iter__, and sequence-protocol classes (__len__ + __getitem__, no __iter__), which
+    Python iterates through __getitem__ (table rows, columns and cells are of that kind)."""
+    return hasattr(cls, "__iter__") or (hasattr(cls, "__len__") and hasattr(cls, "__getitem__"))
+
+
 def _el_of(obj):
     d = getattr(obj, "__dict__", None)
     if not d:
@@ -209,7 +215,7 @@ def walk(prs, entry="all", order="fwd", attribute=False):
         elif step is not None:
             names = []
         calls = [(n, (lambda o=obj, n=n: getattr(o, n))) for n in names]
-        if hasattr(cls, "__iter__"):
+        if _iterable(cls):
             calls.append(("__iter__", lambda o=obj: list(o)))
             if hasattr(cls, "__len__"):
                 calls.append(("__len__", lambda o=obj: len(o)))
@@ -283,7 +289,7 @@ def _accessor_names(obj):
     cls = type(obj)
     names = [n for n in dir(cls) if not n.startswith("_") and isinstance(_desc(cls, n), (property, lazyproperty))
              and not _exempt_now(obj, cls, n)]
-    if hasattr(cls, "__iter__"):
+    if _iterable(cls):
         names.append("__iter__")
     return names
 
@@ -381,7 +387,7 @@ def _query_calls(prs, obj, name):
     if "@" in variant:
         variant, enc = variant.split("@", 1)
         other_path = ast.literal_eval(enc)
-    items = list(obj) if hasattr(type(obj), "__iter__") else []
+    items = list(obj) if _iterable(type(obj)) else []
     foreign = list(follow(prs, other_path)) if other_path is not None else []
     pool = {"own": items[:1] + items[-1:], "foreign": foreign[:1]}[variant] if variant in ("own", "foreign") else []
 
@@ -610,7 +616,8 @@ def _xml_delta(x, y):
 
 # ---- system ------------------------------------------------------------------------------------------
 
-GEN_INITS = ["gen:rich", "out_of_order", "non_contiguous", "gen:orphan-jump-target", "gen:notes-without-master-rel"]
+GEN_INITS = ["gen:rich", "out_of_order", "non_contiguous", "gen:orphan-jump-target", "gen:notes-without-master-rel",
+             "gen:edited"]
 
 
 def _gen_rich():
@@ -628,6 +635,59 @@ def _gen_rich():
         ph.rotation = 15.0
         break
     return F.save_bytes(live.prs)
+
+
+def _gen_edited():
+    """A deck in states only a SEQUENCE of public calls produces (not fresh objects, not PowerPoint's forms): text typed
+    into a spanned cell after a merge, a group member moved after it was added (group frame != union of members), one
+    point's data label and one point's marker customised (series-level c:dLbls / c:dPt beside untouched points),
+    properties set and then reset to None, a hyperlink set and cleared, a split after a merge."""
+    from pptx.chart.data import CategoryChartData
+    from pptx.enum.chart import XL_CHART_TYPE, XL_MARKER_STYLE
+    from pptx.util import Emu, Pt
+    prs = F.open_prs()
+    s1 = prs.slides.add_slide(prs.slide_layouts[6])
+    tbl = s1.shapes.add_table(3, 3, Emu(100000), Emu(100000), Emu(3000000), Emu(1200000)).table
+    tbl.cell(0, 0).text = "origin"
+    tbl.cell(2, 2).text = "free"
+    tbl.cell(0, 0).merge(tbl.cell(1, 1))
+    tbl.cell(1, 1).text = "typed into a spanned cell"
+    tbl.cell(2, 0).merge(tbl.cell(2, 1))
+    tbl.cell(2, 0).split()
+    grp = s1.shapes.add_group_shape()
+    a = grp.shapes.add_shape(1, Emu(500000), Emu(2000000), Emu(400000), Emu(300000))
+    grp.shapes.add_textbox(Emu(1200000), Emu(2100000), Emu(400000), Emu(300000)).text_frame.text = "in group"
+    a.left, a.width = Emu(100000), Emu(900000)
+    tb = s1.shapes.add_textbox(Emu(100000), Emu(3000000), Emu(2000000), Emu(600000))
+    p = tb.text_frame.paragraphs[0]
+    p.text = "spacing set and reset"
+    p.line_spacing = Pt(14)
+    p.line_spacing = None
+    p.level = 2
+    p.level = 0
+    r = p.add_run()
+    r.text = "link set and cleared"
+    r.hyperlink.address = "https://example.com/x"
+    r.hyperlink.address = None
+    r.font.bold = True
+    r.font.bold = None
+    s2 = prs.slides.add_slide(prs.slide_layouts[5])
+    cd = CategoryChartData()
+    cd.categories = ["a", "b", "c"]
+    cd.add_series("S1", (1, 2, 3))
+    cd.add_series("S2", (3, 2, 1))
+    ch = s2.shapes.add_chart(XL_CHART_TYPE.LINE_MARKERS, Emu(100000), Emu(1500000), Emu(4000000), Emu(3000000), cd).chart
+    ser = ch.plots[0].series[0]
+    ser.points[0].data_label.position = None
+    ser.points[0].data_label.text_frame.text = "custom"
+    ser.points[1].marker.style = XL_MARKER_STYLE.NONE
+    ch.plots[0].series[1].points[2].format.line.width = Pt(2)
+    ch.has_legend = True
+    ch.has_legend = False
+    ch.has_legend = True
+    s2.shapes.title.text = "edited"
+    s2.shapes.title.left = Emu(50000)
+    return F.save_bytes(prs)
 
 
 _BLOBS = {}
@@ -682,6 +742,8 @@ def initial_blob(name):
     if name not in _BLOBS:
         if name == "gen:rich":
             _BLOBS[name] = _gen_rich()
+        elif name == "gen:edited":
+            _BLOBS[name] = _gen_edited()
         elif name == "gen:orphan-jump-target":
             _BLOBS[name] = _gen_orphan_jump_target()
         elif name == "gen:notes-without-master-rel":
@@ -794,7 +856,7 @@ def attribute(init, hist):
 
 def run(ctx):
     decks = ["corpus:" + F.corpus_name(p) for p in F.corpus()]
-    small = ["gen:rich", "out_of_order", "gen:orphan-jump-target", "gen:notes-without-master-rel", "corpus:features/steps/test_files/cht-charts.pptx",
+    small = ["gen:rich", "gen:edited", "out_of_order", "gen:orphan-jump-target", "gen:notes-without-master-rel", "corpus:features/steps/test_files/cht-charts.pptx",
              "corpus:features/steps/test_files/tbl-cell.pptx", "corpus:features/steps/test_files/shp-shapes.pptx",
              "corpus:features/steps/test_files/test.pptx", "corpus:features/steps/test_files/prs-notes.pptx",
              "corpus:features/steps/test_files/txt-font-props.pptx"]
